@@ -208,7 +208,9 @@ func c01Cases(tier string) []SyncCase {
 	// new (non-empty, nested) directories below directories the destination already has, at several depths
 	{
 		T := fsmodel.T0
-		dn := func(p string, mt int64) fsmodel.Node { return fsmodel.Node{Path: p, Kind: fsmodel.Dir, Perm: 0755, Mtime: T + mt} }
+		dn := func(p string, mt int64) fsmodel.Node {
+			return fsmodel.Node{Path: p, Kind: fsmodel.Dir, Perm: 0755, Mtime: T + mt}
+		}
 		fn := func(p string, mt int64) fsmodel.Node {
 			return fsmodel.Node{Path: p, Kind: fsmodel.File, Perm: 0644, Mtime: T + mt, Data: fsmodel.Content(int(mt), 5)}
 		}
